@@ -599,7 +599,7 @@ func makeReplay(o *runOpts, P *Prog, r *FuncResult, ob *Obligation) *ReplayFile 
 		rp.Verdict = "replay-unavailable"
 		return rp
 	}
-	vc := r.VC
+	vc := ob.vc
 	fn := vc.fn
 	if fn == nil || vc.top == nil || vc.top.entrySt == nil {
 		rp.Verdict = "replay-unavailable"
